@@ -562,14 +562,15 @@ theorem index_arithmetic_no_overflow_reachable (mn mx : Int) (sm : Nat) (hsm : 0
 
 set_option maxRecDepth 100000 in
 /-- EVERY additive statement of the cbuf.c under test (regenerated from the source on every run)
-    is classified by `intExprTable`: a statement added to cbuf.c makes this theorem fail to build -/
+    is classified by `intExprTable` (key: the statement text, whatever function it stands in): a
+    statement added to cbuf.c makes this theorem fail to build -/
 theorem int_exprs_covered : Gen.CBUF_INT_EXPRS.isSublist intExprKeys = true := by decide
 
 set_option maxRecDepth 100000 in
 /-- the coverage test is not vacuous: the list is not empty and an unknown statement is refused -/
 theorem int_exprs_coverage_witness :
-    Gen.CBUF_INT_EXPRS.length > 100 ∧
-    (Gen.CBUF_INT_EXPRS ++ [("cbuf_writer", "i_dst=dst->i_in+len")]).isSublist intExprKeys = false := by
+    Gen.CBUF_INT_EXPRS.length > 80 ∧
+    (Gen.CBUF_INT_EXPRS ++ ["~i_dst=dst->i_in+len"]).isSublist intExprKeys = false := by
   decide
 
 /-- non-vacuity of the extended theorems: replay after a read, rewind, a short descriptor write,
